@@ -45,6 +45,7 @@ HEADER = "# SPDX-FileCopyrightText: 2020 Some One\n# SPDX-License-Identifier: MI
 def build_project(g: dict, rnd: random.Random) -> dict:
     """Abstract nodes -> Project-shaped record with concrete names (files only; C03 clauses)."""
     files, used, gitignore, tracked, submodules, untracked_dirs = [], set(), [], [], set(), set()
+    gitignore_global = []
     dirname = {}
     dirset = set()
     lic_stems = set()
@@ -90,7 +91,8 @@ def build_project(g: dict, rnd: random.Random) -> dict:
             if want in ("ignore-exact", "ignore-but-tracked"):
                 gitignore.append("/" + pathstr.replace(" ", "\\ "))
             elif want == "ignore-name":
-                gitignore.append(name.replace(" ", "\\ "))
+                # (every other such rule lives in the USER's ignore file, $HOME/.config/git/ignore, not in the repository)
+                (gitignore if ni % 2 else gitignore_global).append(name.replace(" ", "\\ "))
             elif want == "ignore-then-negate":
                 gitignore.append("/" + pathstr.replace(" ", "\\ "))
                 gitignore.append("!/" + pathstr.replace(" ", "\\ "))
@@ -120,7 +122,7 @@ def build_project(g: dict, rnd: random.Random) -> dict:
                               "dot": {"present": False, "cop": [], "lic": [], "bad": False},
                               "want": "tracked", "untrackedDir": False, "ctx": f["ctx"][:k]})
     return {"files": files, "licfiles": [], "tomls": [], "dep5": [], "opts": g["opts"], "cls": {"MIT": "cur"},
-            "git": g["git"], "_gitignore": gitignore, "_tracked": tracked, "_submodules": sorted(submodules),
+            "git": g["git"], "_gitignore": gitignore, "_gitignore_global": gitignore_global, "_tracked": tracked, "_submodules": sorted(submodules),
             "_untracked_dirs": sorted(untracked_dirs)}
 
 
@@ -189,6 +191,9 @@ def materialise_c03(p: dict, root: Path, outside: Path):
     if p["git"]:
         if p["_gitignore"]:
             (root / ".gitignore").write_text("\n".join(p["_gitignore"]) + "\n")
+        if p.get("_gitignore_global"):
+            (root.parent / ".config" / "git").mkdir(parents=True, exist_ok=True)
+            (root.parent / ".config" / "git" / "ignore").write_text("\n".join(p["_gitignore_global"]) + "\n")
         if p["_submodules"]:
             (root / ".gitmodules").write_text("".join(
                 f'[submodule "{s}"]\n\tpath = {s}\n\turl = https://example.com/{s}.git\n' for s in p["_submodules"]))
@@ -324,7 +329,11 @@ def annotate_route(case: dict, p0: dict, scope: list, rnd_seed: int) -> dict:
 def run_case(case: dict) -> list:
     rnd = random.Random(case["seed"])
     d = core.scratch_dir("c03-")
+    saved_env = {k: os.environ.get(k) for k in ("HOME", "XDG_CONFIG_HOME")}
     try:
+        # the user's own Git configuration (ignore file) is the scratch home's - for the tool as for the oracle
+        os.environ["HOME"] = str(d)
+        os.environ.pop("XDG_CONFIG_HOME", None)
         root = d / "root"
         p = build_project(case["g"], rnd)
         materialise_c03(p, root, d / "outside")
@@ -380,6 +389,11 @@ def run_case(case: dict) -> list:
                            "obs": obs})
         return events
     finally:
+        for k_, v_ in saved_env.items():
+            if v_ is None:
+                os.environ.pop(k_, None)
+            else:
+                os.environ[k_] = v_
         shutil.rmtree(d, ignore_errors=True)
 
 
